@@ -1208,8 +1208,8 @@ def perturb(w, rng, steps):
 
 # --------------------------------------------------------------------------- reporting helper
 
-def cap_violations(viols, per_key=3, total=60):
-    """Keep at most `per_key` violations per (stream, world, command) and `total` overall: one broken
+def cap_violations(viols, per_key=2, total=40):
+    """Keep at most `per_key` violations per (stream, command, kind of finding) and `total` overall: one broken
     guard fails in every flag combination, and one replay per combination adds nothing.
     viols: list of tuples whose first two items are (what, case).  Returns (kept, dropped_count)."""
     seen = {}; kept = []; dropped = 0
@@ -1220,7 +1220,7 @@ def cap_violations(viols, per_key=3, total=60):
         if cmd is None:
             argv = [a for a in case.get('argv', []) if not a.startswith('-')]
             cmd = ' '.join(argv[:2])
-        key = (case.get('stream'), case.get('world'), cmd)
+        key = (case.get('stream'), cmd, re.sub(r'`[^`]*`|\[[^\]]*\]|\([^)]*\)|%r|\'[^\']*\'', '', v[0])[:60])
         n = seen.get(key, 0)
         if n < per_key and len(kept) < total:
             kept.append(v); seen[key] = n + 1
